@@ -19,6 +19,7 @@ def run(tier, seed):
              "joint structure x capacity. After assemble the structure blocks are frozen and vals may not be "
              "resized; compute must not allocate/reallocate, write outside vals, or touch pos/crd; pos/crd of o2 "
              "equal those of o1; values after each compute equal the reference for the inputs of that compute",
+        native_stride=12 if tier == "quick" else 4,
         assumptions=[
             "the abstract machine implements the IR semantics of both printers (bound to the implementation by C06, "
             "which also runs assemble/compute natively under AddressSanitizer)",
